@@ -498,8 +498,8 @@ def _replay(rp, p0, env, st, obs, rec):
         return
     pj, _ = export_ir.export(p)
     pj2, _ = export_ir.export(p2)
-    ra = obs.I.run(pj, [rp["input"]])[0]
-    rb = obs.I.run(pj2, [rp["input"]])[0]
+    ra = obs.run(pj, [rp["input"]])[0]
+    rb = obs.run(pj2, [rp["input"]])[0]
     eq, K = obs_cfg.reported_modulo(p, p2)
     stt, det = obs_cfg.diff_runs(ra, rb)
     bad = (not eq) or stt in ("derived-fails", "buffer-differs") or \
